@@ -22,6 +22,15 @@ CHECKS = {
  'C18': dict(technique='write sequences recorded at the open() seam, all prefixes/cuts and TLC-derived truncation classes replayed against every read call',
              text='The write sequence of real conversions (NumPy, SEG-Y heuristic/thorough, 2-D) is recorded through the module-level open seam and checked to reproduce the file; every prefix (at and inside each write) and every truncation class of the finished file (offsets from SgzFormat via TLC: header, each block, each footer array, +-1, interior) is opened and every read call must raise or equal the complete file answer. MC_Reader proves that a returned value only depends on bytes inside the modelled reads, so a read that stays inside the partial file is complete.',
              note='D23 (hash patched last) is a recorded known finding', ref='7/C18'),
+ 'C16': dict(technique='TLC model checking of the 3-thread pipeline (SgzWriter: safety, NoLateWrite, Termination under fairness) + edge-cover schedule replay on the real threads + TLC trace validation',
+             text='TLC explores every interleaving of SgzWriter (producer/compressor/writer, bounded queues with Python unfinished-task semantics, in-place patches) with the constants of each real configuration and checks FileIsSequential, DataPrefix, NoLateWrite, deadlock freedom and Termination; the dumped state graph is covered edge by edge with schedules that a cooperative scheduler forces on the unmodified code (conversion_utils.Queue/Thread and open replaced from outside), each execution must return, write nothing afterwards and leave the sequential file byte for byte; every executed event trace is validated by TLC against Trace_Writer.',
+             note='scheduling points = queue operations, thread start, file write, flush, return; design mutants (early task_done, swapped joins, second compressor, missing join) are each rejected by TLC', ref='7/C16'),
+ 'C01': dict(technique='TLC model checking of the producers\' unit order against the format (MC_WriterData) + bitwise replay on real conversions by every route',
+             text='MC_WriterData proves for all small shapes x blockshape families that the items the producers emit, concatenated, put every unit at the address the format (and the reader) derives; real cubes on every residue are written by NumPy, segyio (IEEE/IBM), reduced-I/O reader, extended-header SEG-Y, CLI and the ZGY/VDS fixtures, and each data slot at a TLC-emitted address is compared bitwise with Enc of the ideal edge-extended unit, read_volume() with the whole-array ZFP image.',
+             note='finite float32 inputs; for IBM sources the samples are what segyio delivers; VDS/ZGY: fixtures only', ref='7/C01'),
+ 'C20': dict(technique='TLC model checking of the hash input stream (MC_WriterData!HashIsSource) + replay against hashlib on real conversions',
+             text='TLC proves for all small 3-D/2-D shapes and blockshapes that the sequence of planes/traces fed to the hash is exactly the real source in trace order; real conversions by every route and setting are compared with hashlib.sha1 of the source samples, every single-sample perturbation of a small cube/section must change the hash, re-blocking must carry it.',
+             note='SHA-1 trusted; irregular surveys are outside the property', ref='7/C20'),
 }
 checks = []
 for pid, c in CHECKS.items():
